@@ -75,6 +75,8 @@ def make_scenario(rnd, counts, nues_choices=None, fault=None, opts=None):
         low = 10000 - rnd.randrange(1, nreg + 1) if nreg > 1 else rnd.choice([9999, 0, rnd.randrange(10000)])
         if nreg > 1 and "det" in opts:
             low = 10000 - (nreg - 1) - opts["det"] % 2      # the last (or the last but one) UE of the run lands on ...0000
+        if "low" in opts:
+            low = opts["low"]
         base = max(base, 1) if low == 0 else base
     msin_val = base * 10000 + low if msin_len >= 4 else low
     msin = str(msin_val).zfill(msin_len)[-msin_len:]
@@ -157,6 +159,7 @@ def make_scenario(rnd, counts, nues_choices=None, fault=None, opts=None):
             ue["withAmbr"] = (s_ // 2) % 2 == 0
             # 139 is the id of the tunnel IE that follows the bit rate IE in the transfer: its encoding contains the octets 00 8B
             ue["ambrDl"] = num([139, 1 << 32, 4000000000000, 0, 256, 35584][s_ % 6])
+            ue["setupMsgNas"] = (d + u) % 2 == 1       # another NAS message in the message-level NAS-PDU IE of the setup request
             if u >= 1 and d % 2 == 0:
                 # two UPFs that number their tunnels alike: the same TEID from another UPF address (a TEID is unique per address only)
                 ue["teid"] = list(ues[0]["teid"])
@@ -165,6 +168,12 @@ def make_scenario(rnd, counts, nues_choices=None, fault=None, opts=None):
             if ues[u]["amfId"] in [x["amfId"] for x in ues[:u]]:
                 ues[u]["amfId"] = num(1000 + u)
     scn = {"cfg": cfg, "ues": ues, "fault": fault or {"kind": "none", "at": -1, "bytes": []}}
+    if "det" in opts:
+        scn["amfOtherPlmnFirst"] = opts["det"] % 2 == 1      # the AMF serves a second PLMN and lists it in front of the gNB's
+    if opts.get("gid_hex") and bits == 32:
+        # four octets that are all hexadecimal digits in ASCII: the identifier is these octets, not the number they spell
+        cfg["gnbId"] = [0x31, 0x32, 0x41, 0x66]
+    gid = cfg["gnbId"]
     text = {"mcc": mcc, "mnc": mnc, "imsi": imsi, "name": name, "gid": "".join(chr(b) for b in gid),
             "k": "".join("%02x" % b for b in k), "op": "".join("%02x" % b for b in op), "opc": "".join("%02x" % b for b in opc),
             "gtp": ".".join(str(b) for b in gtp), "sd": "".join("%02x" % b for b in sd)}
